@@ -186,6 +186,10 @@ func (adapter *Adapter) UpdateInputs(deps []controller.Input) error {
 			adapter.addWatchFilter(deps[i].Namespace, deps[i].Type, deps[i].ID, filter)
 
 			if err := adapter.watchFunc(deps[i].Namespace, deps[i].Type); err != nil {
+				// the input is not watched: take it back, so that a retry adds (and watches) it again
+				adapter.deleteWatchFilter(deps[i].Namespace, deps[i].Type, deps[i].ID)
+				adapter.depDB.DeleteControllerInput(adapter.Name, deps[i]) //nolint:errcheck
+
 				return fmt.Errorf("error watching resources: %w", err)
 			}
 
